@@ -73,6 +73,8 @@ type vrun struct {
 	regAddr      []regaddr.ModulePackage
 	staticDiags  map[string]sourcebundle.Diagnostics
 	diagsSeen    map[string][]string // diag id -> where it was delivered ("tracer", "add:<i>")
+	lockFirst    map[int]int         // task -> event number of the current call's first mutex acquisition
+	lockLast     map[int]int         // task -> event number of the current call's last mutex release
 	emitted      []emitted
 	probe        bool
 	probeOpenOK  []string
